@@ -39,6 +39,9 @@ def plan(tier, seed):
                "n": 6000 if q else 150000} for i, L in enumerate([5, 6, 6, 7, 8, 10, 12, 16])]
     specs += [{"mode": "soup", "seed": seed, "shard": i, "n": 1500 if q else 30000} for i in range(8)]
     specs += [{"mode": "runs", "shard": i, "nshards": 8} for i in range(8)]
+    # containers (comments, literals with every prefix, directive bodies; closed and left open) x payload sequences
+    specs += [{"mode": "grammar", "seed": seed, "shard": i, "nshards": 8, "maxlen": 2 if tier == "quick" else 3,
+               "sample": 1500 if tier == "quick" else 40000} for i in range(8)]
     specs += pipework.plan_programs(tier, seed, "C05", nshards=16 if q else 48, per_shard=8 if q else 120)
     specs += [{"mode": "cli", "seed": seed, "shard": i, "n": 10 if q else 120} for i in range(4)]
     specs += [{"mode": "tokseq", "seed": seed, "shard": i, "nshards": 8, "maxlen": 2 if q else 3,
@@ -56,6 +59,8 @@ DIRECTIVES = ["include", "import", "define", "undef", "if", "ifdef", "ifndef", "
 DIR_ARGS = ["", "A -", "A +", "A ~", "A -1", "A (", "A 1 +", "A !", "A *", "A ++", "A \"s", "A 's", "A(x) -", "NAME", "name", "NULL", "int", "inline", "if", "sizeof", "return", "42", "\"file.h\"", "<file.h>", "<file.h", "file.h>", "\"file.h", "(", ")", "(1 +", "1 +", "+",
             "defined", "defined(", "defined(X)", "!defined X", "X Y", "X(a, b) a", "X(", "X(a", "X ##", "\\", "// c", "/* c",
             "NAME NAME NAME", "1 ? 2 : 3", "1 ? 2", "(((((1)))))", "0x", "'", "\"", "@"]
+DIR_PROLOGUE = ["#define NAME \"file.h\"\n#define A 1\n#define X(a, b) a\n#define name 2\n", "#define NAME <file.h>\n#define A\n#define X 3\n",
+                "#define NAME 1\n#define A(x) x\n#define X\n#define name\n"]
 DIR_TAILS = ["", "\n", "\nint\tf(void)\n{\n\treturn (0);\n}\n", "\n#endif\n"]
 
 
@@ -103,7 +108,9 @@ def run_directives(spec):
                     for name in ("t.c", "t.h"):
                         judge(sh, name, src, {"directive": d, "arg": a}, "directive")
                         judge(sh, name, "#ifndef T_H\n# define T_H\n" + src, {"directive": d, "arg": a}, "directive")
-    sh.sample({"directive_grid": "%d directives x %d arguments x %d tails x 4 leads x 2 file types x 2 contexts" % (
+                        # the names the arguments use are macros defined earlier in the file
+                        judge(sh, name, DIR_PROLOGUE[(k // 4) % len(DIR_PROLOGUE)] + src, {"directive": d, "arg": a}, "directive")
+    sh.sample({"directive_grid": "%d directives x %d arguments x %d tails x 4 leads x 2 file types x 2 contexts (+ after #define of the names used)" % (
         len(DIRECTIVES), len(DIR_ARGS), len(DIR_TAILS))})
     return sh
 
